@@ -357,6 +357,11 @@ def c03(ctx):
         ctx.corr(sync_cases(pairs, g, (6, 7)), pair_nt)
         ctx.corr([(52, [rc, mt, m, T(a), T(b)]) for a, b in pairs
                   for m in mrts_grid(g)[:2] for mt in maxtau_grid(g)[:2] for rc in (False, True)], pair_nt)
+        # a time unit of 2^-24 with the default reconciliation (spikes closer than 1e-6 are still different spikes)
+        kq = Fr(1, 2 ** 24)
+        ctx.corr([c_ for a, b in pairs[::5] for c_ in
+                  ((52, [True, Z, Z, [[kq * x for x in a], Z, kq], [[kq * x for x in b], Z, kq]]),
+                   (70, [True, Z, Z, Z, [[[kq * x for x in a], Z, kq], [[kq * x for x in b], Z, kq]]]))], lambda rid, x: True)
         # a threshold larger than the whole recording is a valid threshold (the documented interpolation saturates)
         ctx.corr([(52, [False, Z, m, T(a), T(b)]) for a, b in pairs[::2] for m in (Fr(2), Fr(5))], pair_nt)
         # the same profile through the list forms (list of two; longer list + index pair): max_tau and MRTS must arrive
@@ -376,7 +381,7 @@ def c03(ctx):
                      "per-spike indicator == pairwise definition")
     filter_same_object_oracle(ctx, 60, 600)
     big = big_tau_pairs(ctx)
-    ctx.corr([(rid, [a, b, Z, ONE, mt, m]) for a, b, mt, m in big for rid in (6, 7)], pair_nt)
+    ctx.corr([(rid, [a, b, Z, ONE, mt, m]) for a, b, mt, m in big for rid in (6, 7, 12)], pair_nt)
     spec_vs_impl(ctx, [(102, [a, b, Z, ONE, mt, m], 6, [a, b, Z, ONE, mt, m]) for a, b, mt, m in big],
                  "coincidence profile == pairwise definition (max_tau above half the recording)")
     spec_vs_impl(ctx, [(103, [a, b, Z, ONE, mt, m], 7, [a, b, Z, ONE, mt, m]) for a, b, mt, m in big],
@@ -427,7 +432,7 @@ def c04(ctx):
                            for a, b in pairs for m in mrts_grid(g)[:3] for mt in maxtau_grid(g)],
                      "directionality values == leader/follower definition")
     big = big_tau_pairs(ctx)
-    ctx.corr([(rid, [a, b, Z, ONE, mt, m]) for a, b, mt, m in big for rid in (8, 9)], pair_nt)
+    ctx.corr([(rid, [a, b, Z, ONE, mt, m]) for a, b, mt, m in big for rid in (8, 9, 13, 14)], pair_nt)
     spec_vs_impl(ctx, [(104, [a, b, Z, ONE, mt, m], 8, [a, b, Z, ONE, mt, m]) for a, b, mt, m in big],
                  "order profile == leader/follower definition (max_tau above half the recording)")
     spec_vs_impl(ctx, [(105, [a, b, Z, ONE, mt, m], 9, [a, b, Z, ONE, mt, m]) for a, b, mt, m in big],
@@ -584,6 +589,11 @@ def c05(ctx):
                 chk_scalar_profile(ctx, "sync", 56, [False, mt, m, iv, A, B], 52, [False, mt, m, A, B], 34, ivs)
             A, B = T(a), T(b)
             chk_scalar_profile(ctx, "order", 71, [False, True, mt, m, A, B], 53, [False, mt, m, A, B], 34, None)
+    # coincidence windows larger than half the recording: single-pass values vs profiles (both through the model)
+    bigc = big_tau_pairs(ctx)
+    ctx.corr([(rid, [a, b, Z, ONE, mt, m]) for a, b, mt, m in bigc for rid in (12, 13, 14)] +
+             [(56, [False, mt, m, None, T(a), T(b)]) for a, b, mt, m in bigc[::3]] +
+             [(71, [False, True, mt, m, T(a), T(b)]) for a, b, mt, m in bigc[::3]], pair_nt)
     lists, g = ctx.space.random_lists()
     lists = ctx.part(lists)
     cases = []
@@ -1502,6 +1512,28 @@ def c09(ctx):
                 check_sum(ctx, kind + " (integer-typed operand)", ex(A), ex(B), res, lim, integ,
                           [[list(map(Fr, a)) for a in A], [list(map(Fr, a)) for a in B]])
             ctx.nontrivial(("c09int", kind, core.enc([list(map(Fr, a)) for a in fI]), core.enc([list(a) for a in fF])))
+    # pyspike.DiscreteFunc.average_profile (the helper built on add / mul_scalar): the mean, inputs untouched
+    import sys as _sys
+    avp = getattr(_sys.modules.get("pyspike.DiscreteFunc"), "average_profile", None)
+    if avp is not None:
+        for _ in range(ctx.n(60 if ctx.tier == "quick" else 600)):
+            nP = r.randint(2, 7)
+            for kind in ("pwc", "pwl"):
+                fs = [(gen.rand_pwc if kind == "pwc" else gen.rand_pwl)(r, 3, 8) for _ in range(nP)]
+                cls = ps.PieceWiseConstFunc if kind == "pwc" else ps.PieceWiseLinFunc
+                integ = int_pwc if kind == "pwc" else int_pwl
+                objs_ = [cls(*[np.array(core.fl(a), dtype=float) for a in f_]) for f_ in fs]
+                snap_ = [[np.array(a, copy=True) for a in _arrs(o_)] for o_ in objs_]
+                res_ = core.call_impl(lambda: ctx.impl._quiet(lambda: float(avp(objs_).integral())))
+                ctx.check()
+                want_ = float(sum(integ(f_) for f_ in fs) / nP)
+                if not (isinstance(res_, float) and core.close(res_, want_)):
+                    ctx.violate("average_profile is not the mean of the profiles", kind + " average_profile", [list(f_) for f_ in fs],
+                                expected=want_, got=res_)
+                if not all(np.array_equal(x_, y_) for s_, o_ in zip(snap_, objs_) for x_, y_ in zip(s_, _arrs(o_))):
+                    ctx.violate("average_profile modified one of its input profiles", kind + " average_profile",
+                                [list(f_) for f_ in fs])
+            ctx.nontrivial(("c09avg", nP, core.enc([list(f_) for f_ in fs])))
     # order independence: a+b+c in all orders
     for _ in range(ctx.n(150 if ctx.tier == "quick" else 2000)):
         fs = [gen.rand_pwl(r, 3, 8) for _ in range(3)]
@@ -1863,6 +1895,8 @@ def c12(ctx):
             if not feq(x, float(sum(p[0]))):
                 ctx.violate("single-pass directionality != sum of fall-back values", "14", [a, b, Z, ONE, mt, m],
                             expected=sum(p[0]), got=x, rid=14)
+    bigc = big_tau_pairs(ctx)
+    ctx.corr([(rid, [a, b, Z, ONE, mt, m]) for a, b, mt, m in bigc for rid in (6, 7, 8, 9, 12, 13, 14)], pair_nt)
     # both backends describe the CURRENT content of objects that were used before (no state kept between calls)
     stale_state_oracle(ctx, ["spike_sync_profile", "spike_sync", "spike_directionality_values", "spike_train_order",
                              "isi_distance", "spike_distance", "filter_by_spike_sync"], 25, 300)
@@ -2164,6 +2198,8 @@ def c14(ctx):
         # spikes exactly on the recording edges, and the whole recording given as an explicit interval (list or
         # tuple): "interval=[t_start, t_end]" is an interval like any other (open: edge spikes do not count)
         L = [sorted(set(t + ([Z] if r.random() < 0.2 else []) + ([ONE] if r.random() < 0.2 else []))) for t in L]
+        if r.random() < 0.15:
+            L = [[], []] + L[2:]                   # two trains without spikes at the front (they may get selected)
         iv = r.choice(intervals_for(r, g, 1) + [[Z, ONE]])
         # ... on recordings anywhere on the time axis (negative, ending at or below 0, far from 0, tiny unit)
         kk, cc = r.choice([(Fr(1), Fr(0)), (Fr(1), Fr(0)), (Fr(1), Fr(-16)), (Fr(2), Fr(-2)), (Fr(1), Fr(-1)),
@@ -2183,6 +2219,7 @@ def c14(ctx):
                ("spike_train_order_profile", ps.spike_train_order_profile, kT, False),
                ("isi_distance", ps.isi_distance, k2, True), ("spike_distance", ps.spike_distance, kS, True),
                ("spike_sync", ps.spike_sync, kT, True), ("spike_train_order", ps.spike_train_order, kT, False),
+               ("spike_train_order(normalize=False)", lambda *a_, **k_: ps.spike_train_order(*a_, normalize=False, **k_), kT, False),
                ("spike_directionality_values", ps.spike_directionality_values, kT, False)]
         mats = [("isi_distance_matrix", ps.isi_distance_matrix, k2, True),
                 ("spike_distance_matrix", ps.spike_distance_matrix, kS, True),
@@ -2236,6 +2273,19 @@ def c14(ctx):
                     ctx.violate("matrix entry != two-train call with the same keywords", name,
                                 [name, L, [Nat(x) for x in sel], m, mt, ri, iv], expected=d,
                                 got=None if isinstance(mm, core.Err) else mm[a_][b_])
+        # keyword combinations reach every call form: MRTS='auto' together with RI / max_tau (no index selection here: F10)
+        for name, fn, kwa in (("spike_profile", ps.spike_profile, dict(MRTS='auto', RI=True)),
+                              ("spike_distance", ps.spike_distance, dict(MRTS='auto', RI=True)),
+                              ("spike_sync_profile", ps.spike_sync_profile, dict(MRTS='auto', max_tau=float(mt))),
+                              ("spike_train_order_profile", ps.spike_train_order_profile, dict(MRTS='auto', max_tau=float(mt)))):
+            q = ctx.impl._quiet
+            two = core.call_impl(lambda: q(lambda: fn(sts[i], sts[j], **kwa)))
+            lst = core.call_impl(lambda: q(lambda: fn([sts[i], sts[j]], **kwa)))
+            tup = core.call_impl(lambda: q(lambda: fn((sts[i], sts[j]), **kwa)))
+            ctx.check()
+            if not (feq(two, lst) and feq(two, tup)):
+                ctx.violate("two trains / [two] / (two) differ with %r" % (sorted(kwa),), name,
+                            [name, L, Nat(i), Nat(j), mt, repr(sorted(kwa))], expected=two, got=[lst, tup])
         # a sequence of three averaging windows is honoured by every call form
         pts_ = sorted(r.sample(range(0, 17), 6))
         wins = [(float(kk * Fr(pts_[2 * w_], 16) + cc), float(kk * Fr(pts_[2 * w_ + 1], 16) + cc)) for w_ in range(3)]
@@ -2607,6 +2657,16 @@ def c16(ctx):
             ctx.check()
             if not (feq(vn, v0, 0.0) and feq(vn, vd, 0.0)):
                 ctx.violate("max_tau=None / 0 / omitted differ", name, [L, Fr(m)], expected=vn, got=[v0, vd])
+            # the bound is honoured whatever the other keywords are: 'auto' == the explicit pooled threshold, with max_tau
+            from pyspike.isi_lengths import default_thresh as _dt
+            au = core.call_impl(lambda: float(_dt(sts)))
+            mtq = 0.125
+            va = core.call_impl(lambda: ctx.impl._quiet(lambda: f(sts, max_tau=mtq, MRTS='auto')))
+            ve = core.call_impl(lambda: ctx.impl._quiet(lambda: f(sts, max_tau=mtq, MRTS=au)))
+            ctx.check()
+            if not feq(va, ve, 1e-12):
+                ctx.violate("with max_tau: MRTS='auto' != the explicit pooled threshold (a keyword is lost)", name, [L, Fr(mtq)],
+                            expected=ve, got=va)
         for (name, f) in (("spike_sync_profile", ps.spike_sync_profile), ("spike_train_order_profile", ps.spike_train_order_profile)):
             mt = Fr(r.randint(1, g), 2 * g)
             a, b = L[0], L[1]
@@ -2659,6 +2719,9 @@ def c17(ctx):
         if sum(len(x) for x in L) >= 3:
             ctx.nontrivial(("c17", core.enc(TL), m, mt, thr))
         cases.append((70, [False, mt, m, thr, TL]))
+        cases.append((70, [True, mt, m, thr, TL]))               # default reconciliation (valid input: no effect)
+        kq = Fr(1, 2 ** 24)                                      # the same list in a time unit of 2^-24
+        cases.append((70, [True, mt * kq, m * kq, thr, [[[kq * x for x in t[0]], kq * t[1], kq * t[2]] for t in TL]]))
         quads.append((106, [mt, m, thr, TL], 70, [False, mt, m, thr, TL]))
         for i in range(min(n, 2)):
             cases.append((7, [L[i], L[(i + 1) % n], c0, c0 + 1, mt, m]))
@@ -2874,6 +2937,14 @@ def c18(ctx):
                         bad = "value arrays do not have the lengths of the selected trains"
                 if bad:
                     ctx.violate("with indices=%r: %s" % (sel, bad), name, [TL, str(mv), mt, ri], got=v)
+        # psth is a public profile function as well: axis from t_start to t_end, strictly increasing, finite counts
+        for bsz in (0.25, 0.3, 1.0):
+            hp = core.call_impl(lambda: ps.psth(sts, bsz))
+            ctx.check()
+            okh = (not isinstance(hp, core.Err)) and len(hp[0]) == len(hp[1]) + 1 and hp[0][0] == float(TL[0][1]) and \
+                hp[0][-1] == float(TL[0][2]) and all(hp[0][k_] < hp[0][k_ + 1] for k_ in range(len(hp[1]))) and core.all_finite(hp)
+            if not okh:
+                ctx.violate("psth does not return a well-formed profile from t_start to t_end", "psth", [TL, repr(bsz)], got=hp)
         # several calls in a row on the SAME objects, the later ones with reconciliation off (the objects are used as
         # given) and MRTS='auto': still no exception, still finite
         for name, f, kw, has_iv in scal:
@@ -2978,6 +3049,12 @@ def c19(ctx):
                     ok = ok and all(_sig_equal(x, y, prec) for x, y in zip(t, b.spikes.tolist()))
             if not ok:
                 ctx.violate("spike times changed by the round trip", "save/load", desc, got=[b.spikes.tolist() for b in back])
+            if it % 31 == 3:
+                ps.save_spike_trains_to_txt([], fn, separator=sep)
+                be = core.call_impl(lambda: len(ps.load_spike_trains_from_txt(fn, edges, separator=sep, ignore_empty_lines=False)))
+                if be != 0:
+                    ctx.violate("an empty list of trains saved over an existing file does not load as an empty list", "save/load",
+                                repr(sep), expected=0, got=be)
             if it % 97 == 5:
                 long_t = sorted(r.uniform(0, 100) * scale for _ in range(r.choice([1001, 1500])))
                 ps.save_spike_trains_to_txt([ps.SpikeTrain(np.array(long_t), edges)], fn, separator=sep, precision=17)
